@@ -24,8 +24,11 @@ token of the delivered bundle with the byte-identical serialisation, 0 = no such
      op as above (P M R r u) with obs <recv>|<sent>|<eps>, and
           b<tok>:<dest>:<reportTo>:<flags>  receive a bundle; flags ⊆ d(elivery report requested)
                                             a(dministrative record) g(arbage administrative record)
+          (the report-to endpoint of bundle <tok> is <reportTo><tok>: unique per bundle)
           with obs <recv>|<sent>|<store>;  sent: ;-list <peer>:B<tok> | <peer>:S<kinds>:<tok>><eid>
           store: absent | letters D F R C L joined by +
+          t                                 the pending-bundles cron job (Core.checkPendingBundles)
+          with obs <recv>|<sent>|<tok>:<store>;…   (store state of every bundle seen so far)
 -/
 open Dtn7.Delivery Driver
 
@@ -271,6 +274,7 @@ structure CoreSt where
   r : Reg := {}
   known : List Bundle := []
   held : List Nat := []      -- tokens the implementation reported as still stored
+  stores : List (Nat × String) := []  -- last store state the implementation reported per token
 
 def storeLetter : Constraint → String
   | .dispatchPending => "D" | .forwardPending => "F" | .reassemblyPending => "R"
@@ -300,7 +304,7 @@ def coreItem (peers : List String) (st : CoreSt) (item : String) : Except String
           match (hd.drop 1).toString.toNat? with
           | none => .error "skip parse-b"
           | some tok =>
-          let b := mkBundle tok dest rt fl
+          let b := mkBundle tok dest (rt ++ toString tok) fl
           let known := if st.known.any (·.tok == tok) then st.known else b :: st.known
           let goEv := toEvents known recv
           let sent := if sentS == "-" then [] else sentS.splitOn ";"
@@ -337,7 +341,7 @@ def coreItem (peers : List String) (st : CoreSt) (item : String) : Except String
           let fwd := x.2.filterMap (fun | .forward a => some s!"B{a.tok}" | _ => none)
           let mSent := sortStr (peers.flatMap (fun p => (reports ++ fwd).map (fun w => p ++ ":" ++ w)))
           let mSentS := if mSent.isEmpty then "-" else ";".intercalate mSent
-          let mStore := showStore (aload tok n'.store)
+          let mStore := showStore ((aload tok n'.store).map (·.2))
           let forwarded := !fwd.isEmpty || (!isLocal)
           if mRecv != showEntries recv then .error s!"diff core-recv at {ops} model={mRecv} impl={recvS}"
           else if mSentS != sentS then .error s!"diff core-sent at {ops} model={mSentS} impl={sentS}"
@@ -348,8 +352,62 @@ def coreItem (peers : List String) (st : CoreSt) (item : String) : Except String
                 clients.foldl (fun r ac => (r.step (.restFetch ac.1 ac.2)).1) r1 else st.r
             let held := if thirdS == "absent" then st.held.filter (· != tok)
                         else if st.held.contains tok then st.held else tok :: st.held
-            .ok { n := n', r := r2, known := known, held := held }
+            .ok { n := n', r := r2, known := known, held := held, stores := astore tok thirdS st.stores }
         | _ => .error "skip parse-b"
+      else if ops == "t" then
+        let goEv := toEvents st.known recv
+        let sent := if sentS == "-" then [] else sentS.splitOn ";"
+        let whats := sent.map (fun s => ":".intercalate ((s.splitOn ":").drop 1))
+        let obsStores : List (Nat × String) := if thirdS == "-" then [] else
+          (thirdS.splitOn ";").filterMap (fun e => match e.splitOn ":" with
+            | [t, v] => t.toNat?.map (·, v)
+            | _ => none)
+        let isLocal := fun (b : Bundle) => st.n.nodeId.sameNode b.dest || st.r.regs.any (·.2.contains b.dest)
+        -- a bundle is re-dispatched when the implementation had reported it as pending (F or C constraint)
+        let wasPending := fun (b : Bundle) => match aload b.tok st.stores with
+          | some v => v.contains 'F' || v.contains 'C'
+          | none => false
+        -- Spec
+        let fail : Option String := st.known.findSome? fun b =>
+          let evb := goEv.filter (·.2.tok == b.tok)
+          let reported := whats.any (fun w =>
+            match w.splitOn ":" with
+            | [k, rest] => k.startsWith "S" && k.contains 'd' && (rest.splitOn ">").headD "" == toString b.tok
+            | _ => false)
+          if isLocal b && whats.contains s!"B{b.tok}" then some "local-bundle-forwarded"
+          else if !(wasPending b && isLocal b) && !evb.isEmpty then some "delivered-unaccepted-copy"
+          else if wasPending b && isLocal b && !(b.admin && !b.adminOk) && !DeliveredExactly st.r.regs b evb then
+            (deliveredFail st.r.regs b evb).map (· ++ "-core-tick")
+          else if reported && evb.isEmpty then some "delivered-report-without-handover"
+          else if wasPending b && isLocal b && aload b.tok obsStores == some "absent" && evb.isEmpty && !(b.admin && !b.adminOk) then
+            some "retention-removed-without-handover"
+          else none
+        match (if goEv.any (fun e => !st.known.any (·.tok == e.2.tok)) then some "content-differs-core-tick" else fail) with
+        | some cls => .error s!"specfail {cls} at t"
+        | none =>
+        -- model
+        let x := tick ncfg st.n
+        let clients := restClients st.r
+        let n' : Node := { x.1 with mux := clients.foldl (fun m ac => (step cfg m (.restFetch ac.1 ac.2)).1) x.1.mux }
+        let handed := x.2.filterMap (fun | .handed r b' => some (r, b') | _ => none)
+        let sortToks := fun (l : List (Rcpt × List Nat)) => l.map (fun e => (e.1, sortBy (fun a b => decide (a < b)) e.2))
+        let mRecv := showEntries (sortToks (groupEvents handed))
+        let reports := x.2.filterMap (fun | .report a => some s!"Sd:{a.tok}>{showEid a.reportTo}" | _ => none)
+        let mSent := sortStr (peers.flatMap (fun p => reports.map (fun w => p ++ ":" ++ w)))
+        let mSentS := if mSent.isEmpty then "-" else ";".intercalate mSent
+        let storeDiff := obsStores.find? (fun e =>
+          match aload e.1 n'.store with
+          | some (_, cons) => !(cons.contains .forwardPending) && showStore (some cons) != e.2
+          | none => e.2 != "absent" && !(e.2.contains 'F' || e.2.contains 'C'))
+        if mRecv != showEntries (sortToks recv) then .error s!"diff core-tick-recv model={mRecv} impl={recvS}"
+        else if mSentS != sentS then .error s!"diff core-tick-sent model={mSentS} impl={sentS}"
+        else if storeDiff.isSome then .error s!"diff core-tick-store impl={thirdS}"
+        else
+          let delivered := st.known.filter (fun b => wasPending b && isLocal b && !(b.admin && !b.adminOk))
+          let r1 := delivered.foldl (fun r b => (r.step (.deliver b)).1) st.r
+          let r2 := clients.foldl (fun r ac => (r.step (.restFetch ac.1 ac.2)).1) r1
+          let held := st.held.filter (fun t => aload t obsStores != some "absent")
+          .ok { st with n := n', r := r2, held := held, stores := obsStores }
       else
         match parseOp ops with
         | none => .error s!"skip parse-op {ops}"
